@@ -142,6 +142,13 @@ def gen_copies(r, gene, n):
             if cand:
                 added = [list(m) for m in r.sample(cand, min(len(cand), r.randint(1, 2)))]
         copies.append((ma, mi, added))
+    # the whole-gene-deletion allele itself among the called alleles (the CN stage calls one allele per configuration):
+    # it counts as a called copy for every rule of the heuristic
+    if dele and n >= 3 and r.random() < 0.25:
+        j = r.randrange(len(forced), n) if len(forced) < n else n - 1
+        copies[j] = (dele, r.choice(list(gene.alleles[dele].minors)), [])
+        if r.random() < 0.3 and n >= 4:
+            copies[(j + 1) % n] = (dele, r.choice(list(gene.alleles[dele].minors)), [])
     return copies
 
 
